@@ -104,6 +104,8 @@ var (
 )
 
 func decodeStreamUnmarshaler(s *Stream, depth int64, unmarshaler json.Unmarshaler) error {
+	// the method gets the text of the value without the white space in front of it ( as in buffer mode )
+	s.skipWhiteSpace()
 	start := s.cursor
 	if err := s.skipValue(depth); err != nil {
 		return err
@@ -119,6 +121,8 @@ func decodeStreamUnmarshaler(s *Stream, depth int64, unmarshaler json.Unmarshale
 }
 
 func decodeStreamUnmarshalerContext(s *Stream, depth int64, unmarshaler unmarshalerContext) error {
+	// the method gets the text of the value without the white space in front of it ( as in buffer mode )
+	s.skipWhiteSpace()
 	start := s.cursor
 	if err := s.skipValue(depth); err != nil {
 		return err
